@@ -291,7 +291,8 @@ void ValueStore::endDocumentFragment(ValueStoreCache* const valueStoreCache) {
 
         if (!keyValueStore) {
 
-            if (fDoReportError) {
+            // nothing refers to the missing key table when this keyref has no key-sequence at all
+            if (fDoReportError && fValueTuples && !fValueTuples->isEmpty()) {
                 fScanner->getValidator()->emitError(XMLValid::IC_KeyRefOutOfScope,
                     fIdentityConstraint->getIdentityConstraintName());
             }
